@@ -31,12 +31,12 @@ var genericFuncs = map[string]interface{}{
 	"strings.TrimRight": strings.TrimRight, "strings.TrimPrefix": strings.TrimPrefix, "strings.TrimSuffix": strings.TrimSuffix,
 	"strings.TrimSpace": strings.TrimSpace, "strings.Cut": strings.Cut, "strings.CutPrefix": strings.CutPrefix,
 	"strings.CutSuffix": strings.CutSuffix,
-	"strconv.Atoi": strconv.Atoi, "strconv.Itoa": strconv.Itoa, "strconv.ParseInt": strconv.ParseInt,
+	"strconv.Atoi":      strconv.Atoi, "strconv.Itoa": strconv.Itoa, "strconv.ParseInt": strconv.ParseInt,
 	"strconv.ParseUint": strconv.ParseUint, "strconv.ParseBool": strconv.ParseBool, "strconv.ParseFloat": strconv.ParseFloat,
 	"strconv.FormatInt": strconv.FormatInt, "strconv.FormatUint": strconv.FormatUint, "strconv.FormatBool": strconv.FormatBool,
 	"strconv.FormatFloat": strconv.FormatFloat, "strconv.Quote": strconv.Quote, "strconv.Unquote": strconv.Unquote,
 	"strconv.QuoteToASCII": strconv.QuoteToASCII,
-	"math.Floor": math.Floor, "math.Ceil": math.Ceil, "math.Trunc": math.Trunc, "math.Round": math.Round,
+	"math.Floor":           math.Floor, "math.Ceil": math.Ceil, "math.Trunc": math.Trunc, "math.Round": math.Round,
 	"math.Max": math.Max, "math.Min": math.Min, "math.Mod": math.Mod, "math.Pow": math.Pow, "math.Sqrt": math.Sqrt,
 	"math.IsInf": math.IsInf, "math.Inf": math.Inf, "math.NaN": math.NaN, "math.Signbit": math.Signbit,
 	"math.Copysign": math.Copysign, "math.Modf": math.Modf, "math.Log10": math.Log10, "math.Pow10": math.Pow10,
